@@ -151,6 +151,13 @@ DEFERRED = {
     'tides.set_state(fixed_q, fixed_dt; deferred)': ('Q+dt', lambda it, s, v: call(it, s.tides, 'set_state', fixed_q=v[0], fixed_dt=v[1], run_updates=False)),
 }
 MUTATORS.update(DEFERRED)
+# a driver re-sending the state it read back (the very same objects): carries no new value, but is a change request like any other -- whatever was deferred rides on it
+RESEND = {
+    'world.set_state(eccentricity = the current value)': ('same', lambda it, s, v: call(it, s.world, 'set_state', eccentricity=s.orbit.attrs['_eccentricities'][1])),
+    'orbit.set_state(semi_major_axis = the current value)': ('same', lambda it, s, v: call(it, s.orbit, 'set_state', s.world, semi_major_axis=s.orbit.attrs['_semi_major_axes'][1])),
+    'world.set_state(spin_frequency = the current value)': ('same', lambda it, s, v: call(it, s.world, 'set_state', spin_frequency=s.world.attrs['_spin_frequency'])),
+}
+MUTATORS.update(RESEND)
 
 
 def exposed(s):
@@ -178,7 +185,7 @@ def run(chk):
     for use_ctl in (False, True):
         for obliq_on in ((True,) if chk.tier == 'quick' else (True, False)):
             model = ('CTL' if use_ctl else 'CPL') + (', obliquity tides on' if obliq_on else ', obliquity tides off')
-            singles = [m_ for m_ in MUTATORS if m_ not in DEFERRED]
+            singles = [m_ for m_ in MUTATORS if m_ not in DEFERRED and m_ not in RESEND]
             if chk.tier == 'quick':
                 pairs = [('orbit.set_eccentricity', 'world.set_fixed_q'), ('world.set_spin_frequency', 'orbit.set_eccentricity'), ('world.set_obliquity', 'orbit.set_semi_major_axis'),
                          ('world.set_fixed_q', 'world.set_spin_frequency'), ('orbit.set_semi_major_axis', 'orbit.set_eccentricity')]
@@ -192,6 +199,7 @@ def run(chk):
             if not obliq_on:
                 followups = [f_ for f_ in followups if 'obliquity' not in f_]
             pairs = pairs + [(d_, f_) for d_ in DEFERRED for f_ in followups]
+            pairs = pairs + [(d_, f_) for d_ in (list(DEFERRED)[:1] if chk.tier == 'quick' else DEFERRED) for f_ in RESEND if ('spin' not in f_ or True)]
             seqs = [(m,) for m in singles] + pairs
             for seq in seqs:
                 nseq += 1
@@ -210,6 +218,9 @@ def run(chk):
                             newv = (X.atom(f'Q{i + 1}', 'pos'), X.atom(f'dt{i + 1}', 'pos'))
                             fn_(it, s, newv)
                             final['Q'], final['dt'] = newv
+                            continue
+                        if key == 'same':
+                            fn_(it, s, None)
                             continue
                         newv = X.atom(f'{key}{i + 1}', 'pos' if key in ('e', 'a', 'Q', 'dt') else 'real')
                         fn_(it, s, newv)
